@@ -28,6 +28,15 @@
 // likelihood model that does not consult the measurement model's validity), optional int
 // badlik = +1 / -1 (the likelihood model returns one value too many / too few).
 //
+// CALLBACK RE-ENTRANCY (meta intrude=1).  Every callback of the subject's models (state model of the wrapped prediction,
+// measurement model of the wrapped correction, likelihood model, harness transition model) first calls vf::intrude():
+// an independent TWIN particle filter step (its own GPFPrediction / GPFCorrection objects, its own models serving OTHER
+// operands of the same shapes from a Shared record of its own, its own particle sets, and its OWN random generator:
+// another seed, draws taken from the twin's generator_ only, so the subject's stream and its mirror are not touched)
+// runs a complete predict + correct + getLikelihood inside the callback.  The subject's results must not change
+// (state shared between objects: function-local statics, globals).  The separately constructed wrapped steps (sep_*)
+// serve from a third record and do not intrude.
+//
 // The draws of GPFCorrection are logged by wrapping the protected gaussian_random_sample_ in
 // a subclass (and compared with a mirror mt19937_64(seed) + normal_distribution(0,1)); the
 // same subclass observes the library's square-root factor by feeding unit vectors through
@@ -67,6 +76,8 @@ struct Family {
 struct Shared {
     MatrixXd y; bool mv = true, pv = true, iv = true, cv = true, lik_ok = true; long badlik = 0;
     MatrixXd F, Q, Ft, Qt, R; Family f; double scale = 1.0;
+    bool intrudes = false;                 // the models serving from this record call vf::intrude() in every callback
+    void hook() const { if (intrudes) vf::intrude(); }
 };
 
 // value of a per-step operand: mat "<name>_<k>" if present, else mat "<name>"
@@ -77,8 +88,13 @@ static const MatrixXd& stepmat(const vf::Case& c, const std::string& name, long 
 static void serve(Shared& sh, const vf::Case& c, long k) {
     sh.F = stepmat(c, "F", k); sh.Q = stepmat(c, "Q", k); sh.Ft = stepmat(c, "Ft", k); sh.Qt = stepmat(c, "Qt", k);
     sh.R = stepmat(c, "R", k);
-    sh.f.kind = c.mi("hkind", 0);
-    sh.f.H = stepmat(c, "H", k); sh.f.G = stepmat(c, "G", k); sh.f.G2 = stepmat(c, "G2", k); sh.f.b = stepmat(c, "b", k); sh.f.g = stepmat(c, "g", k);
+    // (reproducer files written before the measurement family existed carry the kind of the H matrix under this key: kind 0)
+    { const std::string hk = c.m("hkind", "0"); sh.f.kind = (!hk.empty() && hk.find_first_not_of("0123456789") == std::string::npos) ? std::stol(hk) : 0; }
+    sh.f.H = stepmat(c, "H", k);
+    if (c.has_mat("G")) { sh.f.G = stepmat(c, "G", k); sh.f.G2 = stepmat(c, "G2", k); sh.f.b = stepmat(c, "b", k); sh.f.g = stepmat(c, "g", k); }
+    else {   // reproducer files written before the measurement family existed: h(x) = H x
+        sh.f.G = MatrixXd::Zero(sh.f.H.rows(), sh.f.H.cols()); sh.f.G2 = sh.f.G; sh.f.b = MatrixXd::Zero(sh.f.H.rows(), 1); sh.f.g = sh.f.b;
+    }
     sh.scale = stepmat(c, "scale", k)(0, 0);
     sh.y = c.mat("ys").col(k).topRows(sh.f.H.rows());
 }
@@ -94,12 +110,12 @@ static std::pair<bool, Data> innov(bool ok, const Data& pred, const Data& meas) 
 struct ServedLTI : public LTIMeasurementModel {
     const Shared* sh_;
     ServedLTI(const MatrixXd& H, const MatrixXd& R, const Shared* sh) : LTIMeasurementModel(H, R), sh_(sh) {}
-    bool freeze(const Data&) override { return true; }
-    MatrixXd getMeasurementMatrix() const override { return sh_->f.H; }
-    std::pair<bool, Data> measure(const Data&) const override { return std::make_pair(sh_->mv, Data(sh_->y)); }
-    std::pair<bool, Data> predictedMeasure(const Ref<const MatrixXd>& X) const override { MatrixXd p = sh_->f.H * X; return std::make_pair(sh_->pv, Data(std::move(p))); }
-    std::pair<bool, Data> innovation(const Data& p, const Data& m) const override { return innov(sh_->iv, p, m); }
-    std::pair<bool, MatrixXd> getNoiseCovarianceMatrix() const override { return std::make_pair(sh_->cv, sh_->R); }
+    bool freeze(const Data&) override { sh_->hook(); return true; }
+    MatrixXd getMeasurementMatrix() const override { sh_->hook(); return sh_->f.H; }
+    std::pair<bool, Data> measure(const Data&) const override { sh_->hook(); return std::make_pair(sh_->mv, Data(sh_->y)); }
+    std::pair<bool, Data> predictedMeasure(const Ref<const MatrixXd>& X) const override { sh_->hook(); MatrixXd p = sh_->f.H * X; return std::make_pair(sh_->pv, Data(std::move(p))); }
+    std::pair<bool, Data> innovation(const Data& p, const Data& m) const override { sh_->hook(); return innov(sh_->iv, p, m); }
+    std::pair<bool, MatrixXd> getNoiseCovarianceMatrix() const override { sh_->hook(); return std::make_pair(sh_->cv, sh_->R); }
     VectorDescription getMeasurementDescription() const override { return VectorDescription(sh_->f.H.rows()); }
     VectorDescription getInputDescription() const override { return VectorDescription(sh_->f.H.cols(), 0, sh_->f.H.rows()); }
 };
@@ -108,11 +124,11 @@ struct ServedLTI : public LTIMeasurementModel {
 struct ServedFamily : public AdditiveMeasurementModel {
     const Shared* sh_;
     explicit ServedFamily(const Shared* sh) : sh_(sh) {}
-    bool freeze(const Data&) override { return true; }
-    std::pair<bool, Data> measure(const Data&) const override { return std::make_pair(sh_->mv, Data(sh_->y)); }
-    std::pair<bool, Data> predictedMeasure(const Ref<const MatrixXd>& X) const override { MatrixXd p = sh_->f.eval(X); return std::make_pair(sh_->pv, Data(std::move(p))); }
-    std::pair<bool, Data> innovation(const Data& p, const Data& m) const override { return innov(sh_->iv, p, m); }
-    std::pair<bool, MatrixXd> getNoiseCovarianceMatrix() const override { return std::make_pair(sh_->cv, sh_->R); }
+    bool freeze(const Data&) override { sh_->hook(); return true; }
+    std::pair<bool, Data> measure(const Data&) const override { sh_->hook(); return std::make_pair(sh_->mv, Data(sh_->y)); }
+    std::pair<bool, Data> predictedMeasure(const Ref<const MatrixXd>& X) const override { sh_->hook(); MatrixXd p = sh_->f.eval(X); return std::make_pair(sh_->pv, Data(std::move(p))); }
+    std::pair<bool, Data> innovation(const Data& p, const Data& m) const override { sh_->hook(); return innov(sh_->iv, p, m); }
+    std::pair<bool, MatrixXd> getNoiseCovarianceMatrix() const override { sh_->hook(); return std::make_pair(sh_->cv, sh_->R); }
     VectorDescription getMeasurementDescription() const override { return VectorDescription(sh_->f.H.rows()); }
     VectorDescription getInputDescription() const override { return VectorDescription(sh_->f.H.cols(), 0, sh_->f.H.rows()); }
 };
@@ -121,13 +137,14 @@ struct ServedFamily : public AdditiveMeasurementModel {
 // (pointers into the Shared record); the transition density is the linear-Gaussian one or the
 // harness' Cauchy-like density 1 / (1 + |cur - A prev|^2)
 struct LTI : public LTIStateModel {
-    long n_; bool cauchy_; const MatrixXd* F_c; const MatrixXd* Q_c;
-    LTI(const MatrixXd* F, const MatrixXd* Q, bool cauchy = false) : LTIStateModel(*F, *Q), n_(F->rows()), cauchy_(cauchy), F_c(F), Q_c(Q) {}
+    long n_; bool cauchy_; const MatrixXd* F_c; const MatrixXd* Q_c; const Shared* sh_;
+    LTI(const MatrixXd* F, const MatrixXd* Q, const Shared* sh, bool cauchy = false) : LTIStateModel(*F, *Q), n_(F->rows()), cauchy_(cauchy), F_c(F), Q_c(Q), sh_(sh) {}
     VectorDescription getStateDescription() override { return VectorDescription(n_); }
-    MatrixXd getStateTransitionMatrix() override { return *F_c; }
-    MatrixXd getNoiseCovarianceMatrix() override { return *Q_c; }
-    MatrixXd getJacobian() override { return *F_c; }
+    MatrixXd getStateTransitionMatrix() override { sh_->hook(); return *F_c; }
+    MatrixXd getNoiseCovarianceMatrix() override { sh_->hook(); return *Q_c; }
+    MatrixXd getJacobian() override { sh_->hook(); return *F_c; }
     VectorXd getTransitionProbability(const Ref<const MatrixXd>& prev, const Ref<const MatrixXd>& cur) override {
+        sh_->hook();
         if (!cauchy_) return utils::multivariate_gaussian_density(cur - *F_c * prev, VectorXd::Zero(n_), *Q_c);
         VectorXd v(cur.cols());
         for (long i = 0; i < cur.cols(); i++) { VectorXd d = cur.col(i) - *F_c * prev.col(i); v(i) = 1.0 / (1.0 + d.squaredNorm()); }
@@ -145,6 +162,7 @@ struct ScriptedLik : public GaussianLikelihood {
     // serve_scale: the scale factor is the one of the current step (Shared), else the constructor's
     ScriptedLik(double scale, const Shared* sh, bool serve_scale = false) : GaussianLikelihood(scale), sh_(sh), serve_scale_(serve_scale) {}
     std::pair<bool, VectorXd> likelihood(const MeasurementModel& mm, const Ref<const MatrixXd>& states) override {
+        sh_->hook();
         if (!sh_->lik_ok) return std::make_pair(false, VectorXd::Zero(1));
         if (serve_scale_) scale_factor_ = sh_->scale;
         return resize_lik(sh_, GaussianLikelihood::likelihood(mm, states));
@@ -155,6 +173,7 @@ struct IndepLik : public LikelihoodModel {
     const Shared* sh_;
     explicit IndepLik(const Shared* sh) : sh_(sh) {}
     std::pair<bool, VectorXd> likelihood(const MeasurementModel&, const Ref<const MatrixXd>& states) override {
+        sh_->hook();
         if (!sh_->lik_ok) return std::make_pair(false, VectorXd::Zero(1));
         MatrixXd i = -(sh_->f.eval(states).colwise() - sh_->y.col(0));
         VectorXd l = sh_->scale * utils::multivariate_gaussian_density(i, VectorXd::Zero(i.rows()), sh_->R);
@@ -193,14 +212,14 @@ static std::unique_ptr<StateModel> make_trans(const vf::Case& c, const Shared* s
         const WhiteNoiseAcceleration::Dim d = k == "wna1" ? WhiteNoiseAcceleration::Dim::OneD : (k == "wna3" ? WhiteNoiseAcceleration::Dim::ThreeD : WhiteNoiseAcceleration::Dim::TwoD);
         return std::unique_ptr<StateModel>(new WhiteNoiseAcceleration(d, w(0, 0), w(0, 1)));
     }
-    return std::unique_ptr<StateModel>(new LTI(&sh->Ft, &sh->Qt, k == "cauchy"));
+    return std::unique_ptr<StateModel>(new LTI(&sh->Ft, &sh->Qt, sh, k == "cauchy"));
 }
 
 static std::unique_ptr<GaussianPrediction> make_gp(const vf::Case& c, const Shared* sh) {
     const std::string w = c.m("wrap", "kf");
-    if (w == "kf") return std::unique_ptr<GaussianPrediction>(new KFPrediction(std::unique_ptr<LinearStateModel>(new LTI(&sh->F, &sh->Q))));
+    if (w == "kf") return std::unique_ptr<GaussianPrediction>(new KFPrediction(std::unique_ptr<LinearStateModel>(new LTI(&sh->F, &sh->Q, sh))));
     const MatrixXd& ut = c.mat("ut");
-    return std::unique_ptr<GaussianPrediction>(new UKFPrediction(std::unique_ptr<AdditiveStateModel>(new LTI(&sh->F, &sh->Q)), ut(0, 0), ut(0, 1), ut(0, 2)));
+    return std::unique_ptr<GaussianPrediction>(new UKFPrediction(std::unique_ptr<AdditiveStateModel>(new LTI(&sh->F, &sh->Q, sh)), ut(0, 0), ut(0, 1), ut(0, 2)));
 }
 
 static std::unique_ptr<GaussianCorrection> make_gc(const vf::Case& c, const Shared* sh) {
@@ -310,6 +329,33 @@ int main() {
         ParticleSet pred(N, n), corr(N, n);
         fill(pred, c, "p"); fill(corr, c, "c");
 
+        // the separately run wrapped steps serve the same operands from a record of their own (they do not intrude)
+        Shared sh_sep = sh;
+        // the twin (meta intrude=1): other operands of the same shapes, its own objects, sets and generator
+        const bool intrude = c.mi("intrude", 0) != 0;
+        Shared sh2 = sh; sh2.badlik = 0;
+        auto serve_twin = [&c, &sh2](long k) {
+            serve(sh2, c, k);
+            sh2.F = (0.5 * sh2.F.array() + 0.125).matrix(); sh2.Q *= 2.0; sh2.Ft = (0.75 * sh2.Ft.array() - 0.0625).matrix(); sh2.Qt *= 1.5;
+            sh2.R *= 3.0; sh2.f.H = (-1.75 * sh2.f.H.array() + 0.375).matrix(); sh2.f.b = (sh2.f.b.array() + 0.5).matrix();
+            sh2.y = (0.5 * sh2.y.array() - 1.0).matrix(); sh2.scale = 0.5 * sh2.scale + 0.25;
+        };
+        serve_twin(0);
+        GPFPrediction twin_pred(make_gp(c, &sh2));
+        GPFCorrection twin_corr(make_lik(c, &sh2), make_gc(c, &sh2), make_trans(c, &sh2), seed + 12345u);
+        ParticleSet tw_pred(N, n), tw_corr(N, n);
+        long cur_k = 0;
+        if (intrude) {
+            sh.intrudes = true;
+            vf::set_intruder([&]() {
+                serve_twin(cur_k);
+                fill(tw_pred, c, "p"); fill(tw_corr, c, "c");
+                tw_corr.mean() = (0.5 * tw_corr.mean().array() + 1.0).matrix(); tw_corr.covariance() *= 2.0;
+                tw_corr.state() = (tw_corr.state().array() - 0.25).matrix();
+                twin_pred.predict(tw_corr, tw_pred);
+                twin_corr.freeze_measurements(); twin_corr.correct(tw_pred, tw_corr); twin_corr.getLikelihood();
+            });
+        }
         std::unique_ptr<GaussianPrediction> gp = make_gp(c, &sh);
         GaussianPrediction* gp_raw = gp.get();
         std::unique_ptr<GaussianCorrection> gc = make_gc(c, &sh);
@@ -317,9 +363,9 @@ int main() {
         GPFPrediction gpf_pred(std::move(gp));
         LoggedGPF gpf_corr(make_lik(c, &sh), std::move(gc), make_trans(c, &sh), seed);
         // the wrapped steps and the transition model, constructed separately
-        std::unique_ptr<GaussianPrediction> sep_gp = make_gp(c, &sh);
-        std::unique_ptr<GaussianCorrection> sep_gc = make_gc(c, &sh);
-        std::unique_ptr<StateModel> sep_trans = make_trans(c, &sh);
+        std::unique_ptr<GaussianPrediction> sep_gp = make_gp(c, &sh_sep);
+        std::unique_ptr<GaussianCorrection> sep_gc = make_gc(c, &sh_sep);
+        std::unique_ptr<StateModel> sep_trans = make_trans(c, &sh_sep);
         std::mt19937_64 mirror_gen(seed);
         std::normal_distribution<double> mirror_dist(0.0, 1.0);
         bool mirror_ok = true;
@@ -327,9 +373,10 @@ int main() {
         vf::out_begin(c.id);
         for (long k = 0; k < steps; k++) {
             const std::string s = std::to_string(k);
-            serve(sh, c, k);
+            serve(sh, c, k); cur_k = k;
             sh.mv = flag(c, "mv", k, true); sh.pv = flag(c, "pv", k, true); sh.iv = flag(c, "iv", k, true); sh.cv = flag(c, "cv", k, true);
             sh.lik_ok = flag(c, "lok", k, true);
+            sh_sep = sh; sh_sep.intrudes = false;
             const bool skpp = flag(c, "skpp", k, false), skgp = flag(c, "skgp", k, false), skpc = flag(c, "skpc", k, false), skgc = flag(c, "skgc", k, false);
             { vf::Entry e("skip");
               gp_raw->skip("prediction", skgp); sep_gp->skip("prediction", skgp);
@@ -389,6 +436,8 @@ int main() {
             }
         }
         vf::out_int("rng_mirror_ok", mirror_ok ? 1 : 0);
+        if (intrude) vf::out_int("intruder_calls", vf::intruder_state().calls);
+        vf::clear_intruder();
         vf::out_end();
     }
     return 0;
